@@ -330,13 +330,24 @@ void yield(YieldKind k) {
 	reschedule(k);
 }
 
+// Executing code costs no simulated time, so two tasks only ever interleave when they are runnable at the same simulated instant.
+// With arbitrary microsecond delays the timer-driven library threads (receiver: 5/10 ms polls, auto-flush, start-up polls) would
+// almost never be runnable at the instant an application task or a bus event is. Runs with a time grid round every wake-up and
+// every frame start up to a common multiple (5 ms = the receiver's poll period, or 1 ms), which makes those tasks runnable at
+// the same instants - the scheduler then decides their interleaving. Grid 1 = off (free-running microsecond times).
+uint64_t grid_round(uint64_t t) {
+	uint64_t g = G.p.grid_us;
+	if (g <= 1) return t;
+	return (t + g - 1) / g * g;
+}
+
 void sleep_us(uint64_t us) {
 	if (!active()) return;
 	Task *t = me;
 	// jitter is a pure function of (seed, step) so that a replay by decision list sees the same delays
 	uint64_t jx = G.p.seed ^ (G.step * 0x9E3779B97F4A7C15ULL);
 	uint64_t j = G.p.jitter_us ? Rng::splitmix(jx) % ((uint64_t) G.p.jitter_us + 1) : 0;
-	t->wake = G.now + us + j;
+	t->wake = grid_round(G.now + us + j);
 	t->st = T_SLEEPING;
 	if (us == 0 && j == 0) t->wake = G.now;   // pure yield
 	reschedule(Y_SLEEP);
